@@ -307,6 +307,11 @@ def run(rep):
     seed, tier = rep.seed, rep.tier
     cq = common.coq_check_props(PROP)
     common.proof_coverage(rep, cq)
+    if rep.tier == "thorough" and cq["ok"]:
+        ok, axioms = common.coqchk(PROP)
+        rep.coverage["coqchk"] = {"ok": ok, "context_summary": axioms[:1500]}
+        if not ok:
+            rep.violation("coqchk", {"output": axioms[-3000:]}, "coqchk rejects the compiled development", True)
     if not cq["ok"]:
         rep.violation("proof", {"theorem": cq["failed_theorem"], "log": cq["log"][-3000:]},
                       "proof obligation %s no longer checks" % cq["failed_theorem"], True)
